@@ -176,6 +176,20 @@ class World:
                 o = (CMutableTxOut if mut else CTxOut).from_txout(t.vout[j])
                 ser = W.i64(m['vout'][j][0]) + W.varstr(m['vout'][j][1])
             self.pool.append({'kind': 'part', 'obj': o, 'ser': ser, 'what': what, 'mut': mut})
+        elif k == 'part_copy':
+            parts = [e for e in self.pool if e['kind'] == 'part']
+            if not parts:
+                return
+            e = parts[op[1] % len(parts)]
+            mut = op[2]
+            src = e['obj']
+            if e['what'] == 'in':
+                o = (CMutableTxIn if mut else CTxIn).from_txin(src)
+            elif e['what'] == 'outpoint':
+                o = (CMutableOutPoint if mut else COutPoint).from_outpoint(src)
+            else:
+                o = (CMutableTxOut if mut else CTxOut).from_txout(src)
+            self.pool.append({'kind': 'part', 'obj': o, 'ser': e['ser'], 'what': e['what'], 'mut': mut})
         elif k == 'part_edit':
             parts = [e for e in self.pool if e['kind'] == 'part' and e['mut']]
             if not parts:
@@ -268,16 +282,28 @@ class World:
                 raise Violation('stale-txid/%s' % role.replace(' ', '-'), 'GetTxid() of pool object %d (%s) is stale' % (idx, role))
             if hash(o) != hash(ser):
                 raise Violation('stale-pyhash/%s' % role.replace(' ', '-'), 'hash() of pool object %d (%s) is stale' % (idx, role))
+            if kind in ('mtx', 'itx'):
+                # the inputs / outpoints / outputs held by a transaction also report identifiers of their current fields
+                m = e['model']
+                for ci, (child, (h_, n_, s_, q_)) in enumerate(zip(o.vin, m['vin'])):
+                    cser = h_ + W.u32(n_) + W.varstr(s_) + W.u32(q_)
+                    if child.GetHash() != H.dsha(cser) or hash(child) != hash(cser) or child.prevout.GetHash() != H.dsha(h_ + W.u32(n_)):
+                        raise Violation('stale-child/%s-input' % role.replace(' ', '-'), 'input %d of pool object %d (%s) reports a stale identifier' % (ci, idx, role))
+                for ci, (child, (v_, s_)) in enumerate(zip(o.vout, m['vout'])):
+                    cser = W.i64(v_) + W.varstr(s_)
+                    if child.GetHash() != H.dsha(cser) or hash(child) != hash(cser):
+                        raise Violation('stale-child/%s-output' % role.replace(' ', '-'), 'output %d of pool object %d (%s) reports a stale identifier' % (ci, idx, role))
 
 
 def nontrivial(ops):
     names = [o[0] for o in ops]
     edits = {'set', 'in_set', 'out_set', 'in_add', 'in_del', 'in_rep', 'out_add', 'out_del', 'out_rep', 'wit', 'part_edit'}
+    copies = ('snap', 'copy', 'block', 'part', 'part_copy')
     seen_copy = False
     seen_ids_after_edit = False
     edited = False
     for n_ in names:
-        if n_ in ('snap', 'copy', 'block', 'part'):
+        if n_ in copies:
             seen_copy = True
         elif n_ in edits:
             if seen_copy or seen_ids_after_edit:
@@ -459,6 +485,10 @@ def machine_factory(ctx):
         def part_edit(self, p, v):
             self.do(['part_edit', p, v])
 
+        @rule(p=idx, mut=st.booleans())
+        def part_copy(self, p, mut):
+            self.do(['part_copy', p, mut])
+
         @rule(ts=st.lists(idx, min_size=1, max_size=3), tm=gen.u32)
         def block(self, ts, tm):
             self.do(['block', ts, tm])
@@ -502,7 +532,7 @@ CATALOGUE = [['set', 0, 'version', 2], ['set', 0, 'locktime', 7], ['in_set', 0, 
              ['in_add', 0, IN_A], ['in_del', 0, 0], ['out_add', 0, OUT_A], ['out_del', 0, 0], ['wit', 0, [['77']]], ['wit', 0, None],
              ['snap', 0, 'from_tx'], ['snap', 0, 'ctor'], ['snap', 0, 'ctor-tuple'], ['copy', 0], ['copy', 1], ['ids', 0], ['ids', 1], ['sighash', 0, 0, 3],
              ['bip143', 0, 0, 1], ['block', [0], 5], ['in_set', 1, 0, 'n', 6], ['part', 0, 'in', True, 0], ['part_edit', 0, 6],
-             ['in_set', 0, 0, 'prevout', ['cc' * 32, 2]]]
+             ['in_set', 0, 0, 'prevout', ['cc' * 32, 2]], ['part', 0, 'out', False, 0], ['part_copy', 0, True], ['part_copy', 1, False]]
 
 
 def t_exhaustive(ctx):
